@@ -33,9 +33,11 @@ ASSUMPTIONS = [
     "around it (handle_client: readline, decode, unhexlify, handle_request, write, the except arm, the two breaks, the "
     "division after the loop) is modelled with its exceptions (Model/VEcuConn.lean) and what ends it is proved exactly "
     "(conn_end_exact)",
-    "connection level: a request line is shorter than the StreamReader limit of the connection (asyncio's default 2**16, "
-    "i.e. requests up to 32767 bytes; the model has no limit; the tie builds the server's reader with the limit run() "
-    "passes to asyncio.start_server and sends requests up to 4095 bytes, the longest one ISO-TP transfer carries); "
+    "connection level: the StreamReader limit of the connection is a parameter of the model (a longer line ends the loop "
+    "with ValueError: EndCause.tooLong); the exchange theorems assume asyncio's default 2**16 and requests of at most "
+    "32768 bytes; the tie builds the server's reader with the limit run() passes to asyncio.start_server, gives the same "
+    "limit to the model, sends requests up to 4095 bytes (the longest one ISO-TP transfer carries) and lines of exactly "
+    "limit and limit + 2 bytes; "
     "writer.write / drain do not raise while the peer is connected (a reset by the peer is the fourth "
     "way the loop can end and is outside the property); what the runtime does with the socket after handle_client "
     "returned or raised is not modelled (the client then just sees no further line); the client is "
@@ -645,7 +647,7 @@ def conn_clauses(o, requests_only):
 def conn_compare(ctx, real, script):
     """-> (index of the first event where something is wrong | None, signature, spec_violated, impl, model, obs, end)"""
     obs, end = CN.drive(real, script)
-    out = ctx.lean(CN.lean_lines(real, obs))
+    out = ctx.lean(CN.lean_lines(real, obs, end.get("limit", 65536)))
     requests_only = all("line" not in it for it in script)
     for i, (o, mo) in enumerate(zip(obs, out[2:])):
         broken = conn_clauses(o, requests_only)
@@ -718,6 +720,9 @@ def run_connections(ctx, rn, reals, names):
             head = rng.choice([bytes([0x2E, 0xF1, 0x90]), bytes([0x31, 0x01, 0x12, 0x34]), bytes([0x36, 0x01]), rbytes(rng, 1, 3)])
             plans.append(("script", [{"adv": 1, "dur": 0, "pdu": (head + rng.randbytes(n_bytes - len(head))).hex()},
                                      {"adv": 1, "dur": 0, "pdu": "3e00"}]))
+        if real in reals[:2]:  # the reader limit from both sides: a line of exactly `limit` bytes is served, one more ends the loop
+            plans.append(("script", [{"adv": 1, "dur": 0, "line": (b"3e" + b"00" * 32767).hex()}, {"adv": 1, "dur": 0, "line": b"3e00".hex()}]))
+            plans.append(("script", [{"adv": 1, "dur": 0, "pdu": "3e00"}, {"adv": 1, "dur": 0, "line": (b"3e" + b"00" * 32768).hex()}]))
         for n, mixed in plans:
             if n == "script":
                 script = mixed
@@ -769,7 +774,7 @@ def replay_conn(ctx, c):
     real = F.Real(env, c["seed"], params_from_json(env, c.get("params", {})))
     script = c.get("script", [])
     idx, sig, spec, impl, model, obs, end = conn_compare(ctx, real, script)
-    out = ctx.lean(CN.lean_lines(real, obs))
+    out = ctx.lean(CN.lean_lines(real, obs, end.get("limit", 65536)))
     for i, (o, mo) in enumerate(zip(obs, out[2:])):
         print(f"event {i}: {o['op']} start={o['start']} stop={o['stop']} oracle [{o['orc'][:80]}]")
         print(f"   implementation: {o['impl'][:300]}")
@@ -1071,7 +1076,8 @@ MANIFEST = {
                    "unhexlify, handle_request, reply line or nothing, the except arm, both breaks, the division after the loop - "
                    "composed with the vECU model on one side and C19's line layer + parsePdu on the other. For every ModelOK model "
                    "(every model randomize() builds), every oracle, every event history: the loop has ended iff the history contains "
-                   "end of stream, a line that is not even-length ASCII hex, or an empty request, and the recorded cause is that of "
+                   "end of stream, a line longer than the reader's limit, a line that is not even-length ASCII hex, or an empty "
+                   "request, and the recorded cause is that of "
                    "the first such event (conn_end_exact) - so after any history of non-empty requests it is still serving, has "
                    "counted every one of them and the session is offered (conn_never_ends, conn_served_all); what it writes per "
                    "request is nothing or exactly hexlify(reply) + newline - lower-case hex, no inner newline - which the client's "
